@@ -117,6 +117,7 @@ def obs_program(params):
                 return f"h{self.hid}"
 
         obs = api.BaseObserver(ScriptedEmitter, timeout=1.0)
+        stop_returned = [False]
         handlers = {}
 
         def H(h):
@@ -151,9 +152,13 @@ def obs_program(params):
             elif k == "start":
                 call("start", obs.start)
             elif k == "stop":
-                call("stop", obs.stop)
+                if call("stop", obs.stop):
+                    stop_returned[0] = True
             elif k == "join":
-                call("join", obs.join)
+                if call("join", obs.join) and stop_returned[0]:
+                    # C06: once stop() and then join() have returned (in this thread), every library thread has exited
+                    live = sorted(x.name for x in s.tasks if x.kind == "lib" and x.state != "done" and not x.name.startswith("app"))
+                    s.log("final", live=live)
             elif k == "await":
                 s.wait_quiescent()
                 s.log("quiescent")
